@@ -44,6 +44,8 @@ def apply_op(F, rng, s, op):
     if op == 'rows':
         N = s.shape[0]
         r = rng.random()
+        if r < 0.08:
+            return s[:0] if rng.random() < 0.5 else s[np.zeros(N, dtype=bool)]      # no event left
         if r < 0.4:
             return s[int(rng.integers(0, N // 2 + 1)):]
         if r < 0.7:
